@@ -38,6 +38,7 @@ OBJ_DECLS = [
                                     FieldCb('other', 'int', [('int', 'not_self')])]),
     lambda: Func('foo_obj_get_type', 'GType', []),
     lambda: Func('foo_obj_new', 'FooObj*', []),
+    lambda: Func('foo_obj_new_with_size', 'FooObj*', [('int', 'size')]),      # (rename-to foo_obj_new): a shadowing constructor
     lambda: Func('foo_obj_frob', 'void', [('FooObj*', 'self'), ('int', 'n')]),
     lambda: Func('foo_obj_get_size', 'int', [('FooObj*', 'self')]),
     lambda: Func('foo_obj_set_size', 'void', [('FooObj*', 'self'), ('int', 'size')]),
@@ -102,6 +103,7 @@ MENU = [
     ('const-u64', lambda: Const('FOO_BIGU', 18446744073709551615, 'guint64')),
     ('const-i64', lambda: Const('FOO_BIGI', -9223372036854775808, 'gint64')),
     ('const-str', lambda: Const('FOO_NAME', 'foo "bar" <&>')),
+    ('const-empty', lambda: Const('FOO_EMPTY', '')),
     ('const-strnl', lambda: Const('FOO_TEXT', 'line1\nline2\ttab')),
     ('const-dbl', lambda: Const('FOO_PI', 3.25)),
     ('const-bool', lambda: Const('FOO_YES', True)),
@@ -157,6 +159,7 @@ def build_case(keys, with_obj):
     if with_obj:
         comments.append(scanrun.comment(scanrun.block('FooObj:size', [], ident_ann='(attributes pk=pv)'), line=900))
         comments.append(scanrun.comment(scanrun.block('FooObj::changed', [('n', '')], tags=[('Deprecated', '1.0')]), line=920))
+        comments.append(scanrun.comment(scanrun.block('foo_obj_new_with_size', [('size', '')], ident_ann='(rename-to foo_obj_new)'), line=940))
     return decls, comments
 
 
@@ -432,7 +435,11 @@ REG_ITEMS = {
                 lambda: Func('foo_box_get_type', 'GType', []),
                 lambda: Func('foo_box_copy', 'FooBox*', [('FooBox*', 'self')]),
                 lambda: Func('foo_box_free', 'void', [('FooBox*', 'self')]),
-                lambda: Func('foo_box_parse', 'gboolean', [('const char*', 's'), ('GError**', 'error')])],
+                lambda: Func('foo_box_parse', 'gboolean', [('const char*', 's'), ('GError**', 'error')]),
+                lambda: Func('foo_box_new', 'FooBox*', []),
+                lambda: Func('foo_box_new_full', 'FooBox*', [('int', 'w'), ('int', 'h')]),
+                lambda: Func('foo_box_scale', 'void', [('FooBox*', 'self'), ('int', 'f')]),
+                lambda: Func('foo_box_scale_xy', 'void', [('FooBox*', 'self'), ('int', 'fx'), ('int', 'fy')])],
                '<boxed name="FooBox" get-type="foo_box_get_type"/>'),
     'gunion': ([lambda: TypedefAnon('FooAny', [Field('i', 'int'), Field('d', 'double')], union=True),
                 lambda: Func('foo_any_get_type', 'GType', []),
@@ -475,6 +482,9 @@ def build_reg_case(sub, tv):
         dump.append(d)
     dump.append('</repository>')
     comments = []
+    if 'gboxed' in sub:       # shadowing constructor and method of a boxed record
+        comments.append(scanrun.comment(scanrun.block('foo_box_new_full', [('w', ''), ('h', '')], ident_ann='(rename-to foo_box_new)'), line=700))
+        comments.append(scanrun.comment(scanrun.block('foo_box_scale_xy', [('fx', ''), ('fy', '')], ident_ann='(rename-to foo_box_scale)'), line=720))
     if tv is not None:
         cf, skip, where = tv
         decls.append(TypedefAnon('FooThing', [Field('x', 'int')]))
